@@ -298,7 +298,7 @@ fn s_after_main(t: &mut Tape, ctx: &mut Ctx) -> Result<(), Failure> {
 }
 
 pub fn streams() -> Vec<Stream> {
-    vec![Stream { name: "two-types", kind: Kind::Tape { cases: |t: Tier| t.pick(20_000, 400_000), max_len: 420, f: s_two_types }, isolate: false }, Stream { name: "after-main", kind: Kind::Tape { cases: |t: Tier| t.pick(3_000, 80_000), max_len: 420, f: s_after_main }, isolate: false }, Stream { name: "params", kind: Kind::Tape { cases: |t: Tier| t.pick(8_000, 200_000), max_len: 420, f: s_params }, isolate: false }]
+    vec![Stream { name: "two-types", kind: Kind::Tape { cases: |t: Tier| t.pick(20_000, 200_000), max_len: 420, f: s_two_types }, isolate: false }, Stream { name: "after-main", kind: Kind::Tape { cases: |t: Tier| t.pick(3_000, 40_000), max_len: 420, f: s_after_main }, isolate: false }, Stream { name: "params", kind: Kind::Tape { cases: |t: Tier| t.pick(8_000, 100_000), max_len: 420, f: s_params }, isolate: false }]
 }
 
 pub fn def() -> PropertyDef {
